@@ -3,6 +3,7 @@ package props
 import (
 	"context"
 	"encoding/hex"
+	"errors"
 	"fmt"
 	"math"
 	"strings"
@@ -433,6 +434,66 @@ func c09RunEarlierMaps(order []string) explore.Result {
 	return res
 }
 
+// c09RunThenEnds: a handler writes rows and then ends WITHOUT completing: it fails, or simply returns. "Any row a
+// handler writes arrives as one DataRow": every row whose Row call returned nil is on the wire before the
+// ErrorResponse / the end of the cycle. Also a statement with no columns at all: its rows are DataRows of 0 fields.
+func c09RunThenEnds(ncols, rows int, ending string, extended bool) explore.Result {
+	var res explore.Result
+	res.Outcome = "values"
+	res.Key = fmt.Sprint("then-ends", ncols, rows, ending, extended)
+	accepted := 0
+	parse := func(ctx context.Context, q string) (wire.PreparedStatements, error) {
+		cols := wire.Columns{{Name: "a", Oid: 23}, {Name: "b", Oid: 25}}[:ncols]
+		return wire.Prepared(wire.NewStatement(func(ctx context.Context, w wire.DataWriter, p []wire.Parameter) error {
+			accepted = 0
+			for i := 0; i < rows; i++ {
+				if err := w.Row([]any{int32(i), strings.Repeat("v", i*700)}[:ncols]); err != nil {
+					return err
+				}
+				accepted++
+			}
+			switch ending {
+			case "returns an error":
+				return errors.New("failed after the rows")
+			case "returns nil without completing":
+				return nil
+			}
+			return w.Complete(fmt.Sprintf("SELECT %d", rows))
+		}, wire.WithColumns(cols))), nil
+	}
+	one, err := harness.StartOne(parse)
+	if err != nil {
+		res.Engine = err.Error()
+		return res
+	}
+	defer one.Stop()
+	one.Step(pgproto.Startup("user", "u"))
+	msg := pgproto.Query("q")
+	if extended {
+		msg = pgproto.Cat(pgproto.Parse("", "q"), pgproto.Bind("", "", nil, nil, nil), pgproto.Execute("", 0), pgproto.Sync())
+	}
+	out, _ := one.Step(msg)
+	ms, perr := pgproto.ParseBackend(out)
+	if perr != nil {
+		res.Fail("reply-grammar", perr.Error())
+		return res
+	}
+	got := 0
+	for _, m := range ms {
+		if m.Type != 'D' {
+			continue
+		}
+		if len(m.Row) != ncols || (ncols > 0 && string(m.Row[0]) != fmt.Sprint(got)) || (ncols > 1 && len(m.Row[1]) != got*700) {
+			res.Fail("value-mismatch", fmt.Sprintf("statement of %d columns, row %d: DataRow carries %d fields %.40q", ncols, got, len(m.Row), m.Row))
+		}
+		got++
+	}
+	if got != accepted {
+		res.Fail("datarow-count", fmt.Sprintf("a statement of %d columns wrote %d rows successfully (Row returned nil) and then %s (extended protocol: %v): %d DataRows arrived (reply %q)", ncols, accepted, ending, extended, got, pgproto.Kinds(ms)))
+	}
+	return res
+}
+
 // c09RunRowLimit: the client's Execute names a maximum number of rows. Whatever the library does with that field,
 // a row whose Row call returned nil arrives (there is no way for the handler to learn that it was dropped).
 func c09RunRowLimit(rows int, limits []uint32) explore.Result {
@@ -721,6 +782,19 @@ func c09Enumerate(tier string, emit explore.Emit) {
 		order := order
 		emit(explore.Case{Family: "earlier-connection-type-map", Size: 3, Desc: func() any { return map[string]any{"connections_one_after_the_other": order} },
 			Run: func() explore.Result { return c09RunEarlierMaps(order) }})
+	}
+	for _, ncols := range []int{0, 1, 2} {
+		for _, rows := range []int{1, 3, 14} {
+			for _, ending := range []string{"completes", "returns an error", "returns nil without completing"} {
+				for _, ext := range []bool{false, true} {
+					ncols, rows, ending, ext := ncols, rows, ending, ext
+					emit(explore.Case{Family: "row-limit", Size: 4, Desc: func() any {
+						return map[string]any{"columns": ncols, "rows_written": rows, "then_the_statement": ending, "extended_protocol": ext}
+					},
+						Run: func() explore.Result { return c09RunThenEnds(ncols, rows, ending, ext) }})
+				}
+			}
+		}
 	}
 	for _, rows := range []int{1, 5} {
 		for _, limits := range [][]uint32{{0}, {1}, {2}, {5}, {6}, {0, 2, 1, 0}, {1 << 31}} {
